@@ -10,7 +10,7 @@ import ast
 import re
 
 from ..model import AnalysisError, src, callee_name, dotted, walk_local, calls_in, FUNC
-from ..flow import Sem, atoms_at
+from ..flow import Sem, atoms_at, handler_names
 from ..callgraph import CallGraph
 from ..common import resolve_single_assign, ancestors
 from ..selftest import Seed
@@ -44,6 +44,7 @@ def check(ctx):
     ctx.rule("C16-R3", "codec pairing: each facade's set-side encoder and get-side decoder are a serialize_X/deserialize_X pair using the matching library calls")
     ctx.rule("C16-R4", "WHO-MAY(delete/rename/truncate of files) in klongpy/db is empty (eviction and unloading are memory-only); positive control elsewhere in the repo")
     ctx.rule("C16-R5", "accounting: bytes are added only under a successful capacity check and for the amount recorded in the entry; refusals happen before any state change (shared with C18-R4/R5)")
+    ctx.rule("C16-R6", "'absent' is decided only by the cache's not-found signal: every handler around a cache read that does not re-raise catches FileNotFoundError only; a table handed out by the table facade's get does not share the cached frame (copied on construction or at the call)")
     ctx.trust("pickle.dump/pickle.load and DataFrame.to_pickle/pd.read_pickle are inverse pairs")
 
     getf = repo.fn(f"{FCM}:FileCache.get_file")
@@ -67,6 +68,46 @@ def check(ctx):
         # and the facade returns KLONG_UNDEFINED on that path
         rets = [src(r.value) for r in walk_local(f.node) if isinstance(r, ast.Return) and r.value is not None]
         ctx.ob("C16-R1", f.fq, "the facade can return the undefined marker", any("KLONG_UNDEFINED" in r for r in rets), node=f.node, construct="facade returns KLONG_UNDEFINED")
+
+    # ---- R6
+    n_h = 0
+    for f in repo.all_funcs(("db/file_cache", "db/df_cache", KVS)):
+        for tr in [n for n in walk_local(f.node) if isinstance(n, ast.Try)]:
+            reads = [c for s in tr.body for c in calls_in(s) if any(g.fq == getf.fq or getf.fq in cg.reachable([g], kinds=("call",)) for g in cg.resolve_call(f, c))]
+            if not reads:
+                continue
+            for h in tr.handlers:
+                if any(isinstance(n, ast.Raise) for n in ast.walk(h)):
+                    continue
+                n_h += 1
+                ctx.instance("C16-R6", f.fq, f"handler {src(h.type) if h.type is not None else 'bare'}")
+                names = set(handler_names(h)) if h.type is not None else {"BaseException"}
+                ok = names <= {"FileNotFoundError"}
+                ctx.ob("C16-R6", f.fq, "the handler that turns a failed cache read into 'nothing stored' catches FileNotFoundError only", ok, node=h,
+                       construct=f"'absent' decided on {sorted(names)}",
+                       msg=f"{f.name} treats {sorted(names)} from the cache read as 'no value stored': a MemoryError (value larger than this store's limit), a decode error or an I/O error then reads as :undefined or, on the merge path, makes the next set replace what is stored")
+    ctx.floor("C16-R6", "swallowing handlers around cache reads", n_h, 2)
+    tget = next((f for f in facades if any(callee_name(c) == "Table" for c in calls_in(f.node))), None)
+    if tget is None:
+        raise AnalysisError("table facade get (constructing Table) not found")
+    ctx.instance("C16-R6", tget.fq, "fresh frame")
+    tinit = repo.fn("db/sys_fn_db:Table.__init__")
+    dparam = [p for p in tinit.params() if p != "self"][0]
+    copies_in_init = False
+    for n in walk_local(tinit.node):
+        if isinstance(n, ast.Assign) and any((dotted(t) or "").startswith("self.") for t in n.targets) and isinstance(n.value, (ast.Call, ast.Name, ast.Attribute)):
+            conds = [(e, pol) for e, pol in atoms_at(n, tinit.node) if pol and isinstance(e, ast.Call) and callee_name(e) == "isinstance" and "DataFrame" in src(e.args[1])]
+            if conds and dparam in {x.id for x in ast.walk(n.value) if isinstance(x, ast.Name)}:
+                v = n.value
+                if isinstance(v, ast.Call) and isinstance(v.func, ast.Attribute) and v.func.attr in ("copy", "deepcopy") and dotted(v.func.value) == dparam:
+                    copies_in_init = True
+                elif isinstance(v, ast.Call) and callee_name(v) == "DataFrame" and any(k.arg == "copy" and isinstance(k.value, ast.Constant) and k.value.value is True for k in v.keywords):
+                    copies_in_init = True
+    for c in [c for c in calls_in(tget.node) if callee_name(c) == "Table"]:
+        a = c.args[0] if c.args else None
+        at_call = isinstance(a, ast.Call) and isinstance(a.func, ast.Attribute) and a.func.attr in ("copy", "deepcopy")
+        ctx.ob("C16-R6", tget.fq, "the table returned by get owns a copy of the cached frame", copies_in_init or at_call, node=c, construct="table shares the cached frame",
+               msg="the table returned by the table store's get is built on the cached frame itself: adding a column / indexing / inserting into the fetched table silently rewrites the cache entry, so later gets return data that was never set")
 
     # ---- R2
     wr = repo.fn(f"{FCM}:FileCache._write_file")
@@ -284,6 +325,10 @@ MUTATION_SCOPE = ['db/file_cache:FileCache._load_file',
                   'db/helpers:deserialize_obj']
 
 SEEDS = [
+    Seed("update-absent-on-any-exception", "fault", "db/df_cache", "            except FileNotFoundError:\n                df = new_df", "            except Exception:\n                df = new_df", rule="C16-R6"),
+    Seed("kvs-get-absent-on-oserror", "fault", KVS, "        except FileNotFoundError:\n            return KLONG_UNDEFINED", "        except (OSError, EOFError):\n            return KLONG_UNDEFINED", rule="C16-R6"),
+    Seed("table-shares-frame", "fault", "db/sys_fn_db", "            self._df = data.copy()", "            self._df = data", rule="C16-R6"),
+    Seed("refactor-copy-at-call", "refactor", "db/sys_fn_db", "            self._df = data.copy()", "            self._df = data", more=[(KVS, "KLONG_UNDEFINED if df is None else Table(df)", "KLONG_UNDEFINED if df is None else Table(df.copy())")]),
     Seed("kvs-get-raises", "fault", KVS, "        try:\n            return deserialize_obj(self.cache.get_file(key_to_file_path(x)))\n        except FileNotFoundError:\n            return KLONG_UNDEFINED",
          "        return deserialize_obj(self.cache.get_file(key_to_file_path(x)))", rule="C16-R1"),
     Seed("tables-get-raises", "fault", "db/df_cache", "        try:\n            df = self.get_file(file_name)\n        except FileNotFoundError:\n            return pd.DataFrame() if default_empty else None\n        if range_start is None:",
